@@ -135,6 +135,25 @@ def run_case(ck, desc):
                 ck.violation("dual-class-vs-finite-difference", {"fd": fd, "ad": ad, "which": "Rs"}, desc)
     nonzero += ad != 0
 
+    # (b') the same derivative when the pressure arrives as an integer (Python int / numpy int64 /
+    #      float32): "at every input" includes how the caller happens to type an integral pressure
+    pint = int(round(p))
+    if pint != round(pb) and pint >= 15:
+        _, ad_i = derivative(lambda x: oil.solution_gor_Standing(T, x, api, gg, gor), float(pint))
+        for label, arg in (("int", pint), ("np.int64", np.int64(pint)), ("np.float64", np.float64(pint))):
+            hv = oil.dgor_dpressure_Standing(T, arg, api, gg, gor)
+            hv = float(np.asarray(hv, dtype=float).reshape(-1)[0])
+            _cmp(ck, "d(Rs)/dp (integer-typed pressure)", hv, ad_i, desc, {"p": pint, "typed_as": label, "pb": pb})
+        _, ad_w = derivative(lambda x: water.b_water_McCain(Tw, x), float(int(pw)))
+        for label, arg in (("int", int(pw)), ("np.int64", np.int64(int(pw)))):
+            hv = float(water.b_water_McCain_dp(Tw, arg))
+            _cmp(ck, "d(Bw)/dp (integer-typed pressure)", hv, ad_w, desc, {"p": int(pw), "typed_as": label})
+        rint = int(round(desc["gor_eval"]))
+        _, ad_r = derivative(lambda x: oil.b_o_bubblepoint_Standing(T, api, gg, x), float(rint))
+        hv = float(oil.db_o_dgor_Standing(T, api, gg, rint))
+        _cmp(ck, "d(Bob)/d(Rs) (integer-typed GOR)", hv, ad_r, desc, {"gor": rint})
+        ck.count("integer_typed_inputs_checked")
+
     # (c) bubble-point FVF derivative with respect to GOR
     r = desc["gor_eval"]
     _, ad = derivative(lambda x: oil.b_o_bubblepoint_Standing(T, api, gg, x), r)
